@@ -17,7 +17,8 @@ TESTED_NOT_PROVED = ["(proved over the reals in Props/C04.v: turning estimate ze
                      "odd under reversal; the floating-point implementation is compared with these by the oracle)",
                      "the 3% turning-estimate clause (swept over uniformly sampled arcs: n = 3..17, angle up to 1.5 rad) and the 0.9 correlation "
                      "clause (equilibrium Moebius tissues, >= 5 points per interface) are evaluated by the oracle only",
-                     "zero-sum least-squares optimality of the reported pressures is compared with an independent solve, not proved"]
+                     "that a solution of the bordered normal equations is THE zero-sum least-squares solution on a connected tissue is proved (C04_connected_pressures_are_the_zero_sum_least_squares); "
+                     "that numpy's inverse returns such a solution is checked numerically (stationarity, zero sum, +-1 rows on the reported pressures; independent solve)"]
 IMPORTS = "From Forsys Require Import Model.Num Model.CaseUtil Model.PyList Model.PressureSys.\n"
 
 
